@@ -3651,7 +3651,7 @@ func (p *ZitiQlParser) boolExpr(_p int) (localctx IBoolExprContext) {
 						}
 						{
 							p.SetState(319)
-							p.boolExpr(0)
+							p.boolExpr(6)
 						}
 
 					default:
@@ -3743,7 +3743,7 @@ func (p *ZitiQlParser) boolExpr(_p int) (localctx IBoolExprContext) {
 						}
 						{
 							p.SetState(336)
-							p.boolExpr(0)
+							p.boolExpr(5)
 						}
 
 					default:
